@@ -9,6 +9,7 @@ import OvniModel.Lemmas.CoreBayRaw
 import OvniModel.Lemmas.TaskHook
 import OvniModel.Lemmas.CoreBayTable
 import OvniModel.Lemmas.TaskHookOrder
+import OvniModel.Lemmas.TaskCoupleDirty
 
 /-!
 # C20 — breakdown view: the rows hold the sorted per-CPU breakdown values
@@ -709,9 +710,10 @@ theorem task_event_dirty_positions {tm : Ovni.Task.Model} {P : Ovni.Task.ProcInf
     (hin : itt ∈ (Ovni.Emu.taskIdx tm).sets) (hssn : (Ovni.Emu.taskIdx tm).ss ∉ (Ovni.Emu.taskIdx tm).sets)
     (hidle : iidle ∉ (Ovni.Emu.taskIdx tm).all) :
     let iss := (Ovni.Emu.taskIdx tm).ss
-    ∃ b1 bP bF em, Ovni.Emu.Bay.Writes (· < e.shape.L) b b1 ∧ Ovni.Emu.Mirrors e' b1 ∧
+    ∃ b1 bP bF em, Ovni.Emu.Bay.Writes (e.shape.okP (Ovni.Emu.rawOf ti (Ovni.Emu.taskIdx tm).all)) b b1 ∧
+      Ovni.Emu.Mirrors e' b1 ∧
       b1.dirtyPhase b1.chans.length 0 = .ok bP ∧ b1.propagate = .ok (bF, em) ∧ Ovni.Emu.Inv b0 e'.flushAll bF ∧
-      e.shape.cpuOut c k iidle ∉ bP.dirty ∧
+      bP.WF ∧ e.shape.cpuOut c k iidle ∉ bP.dirty ∧
       (e.shape.cpuOut c k iss ∈ bP.dirty → e.shape.cpuOut c k itt ∈ bP.dirty →
         bP.dirty.idxOf (e.shape.cpuOut c k iss) < bP.dirty.idxOf (e.shape.cpuOut c k itt)) ∧
       (srcOrder (e.shape.cpuOut c k itt) (e.shape.cpuOut c k iss) (e.shape.cpuOut c k iidle) bP.dirty).Sublist
@@ -757,7 +759,8 @@ theorem task_event_dirty_positions {tm : Ovni.Task.Model} {P : Ovni.Task.ProcInf
       hb.cpuOut_not_reached hmx hdsub hcl' hk' hss (by rintro ⟨_, _, hx, _⟩; cases hx)
         (by rintro g ⟨_, _, hx, hmem⟩; cases hx; exact hssn hmem) (hreach _ hx)
     have hsub := srcOrder_sublist_tt (e.shape.cpuOut c k itt) _ _ _ wfP.dirtyNodup hnoss hnot
-    exact ⟨b1, bP, bF, em, hw.mono (fun _ h => Ovni.Emu.Shape.okP_lt h), hm, hph, hp, hinv, hnot,
+    exact ⟨b1, bP, bF, em, hw.mono (fun _ ⟨s0, a1, ⟨k0, i0, a2, a3⟩, a4⟩ => ⟨s0, a1, ⟨k0, i0, a2, hsets_all _ a3⟩, a4⟩),
+      hm, hph, hp, hinv, wfP, hnot,
       fun hx _ => absurd hx hnoss, List.Sublist.cons _ hsub, fun _ => ⟨hnoss, hsub⟩⟩
   · obtain ⟨b1, bP, bF, em, D1, D2, A, hw, hm, hph, hp, hinv, wfP, hmx, hd, hd1, hd2, hdP, _, hord, hreach⟩ :=
       Ovni.Emu.Inv.two_phase_event hc hs hi s1 s2
@@ -784,8 +787,106 @@ theorem task_event_dirty_positions {tm : Ovni.Task.Model} {P : Ovni.Task.ProcInf
         (by rintro g ⟨_, _, hx, hmem⟩; cases hx; exact hssn hmem)
         (by rintro g ⟨_, _, hx, hmem⟩; cases hx; simp only [List.mem_singleton] at hmem; exact hne hmem.symm)
         hx hy
-    exact ⟨b1, bP, bF, em, hw.mono (fun _ h => Ovni.Emu.Shape.okP_lt h), hm, hph, hp, hinv, hnot, hpos,
+    refine ⟨b1, bP, bF, em, hw.mono ?_, hm, hph, hp, hinv, wfP, hnot, hpos,
       srcOrder_sublist_of_positions _ _ _ hts _ wfP.dirtyNodup hnot hpos, fun h => absurd h hpr⟩
+    rintro _ ⟨s0, a1, (⟨k0, i0, a2, a3⟩ | ⟨k0, i0, a2, a3⟩), a4⟩
+    · simp only [List.mem_singleton] at a3
+      exact ⟨s0, a1, ⟨k0, i0, a2, a3 ▸ hss_all⟩, a4⟩
+    · exact ⟨s0, a1, ⟨k0, i0, a2, hsets_all _ a3⟩, a4⟩
+
+theorem sublist_pair_full {l : List Src} (h : l.Sublist [Src.ss, Src.tt]) (h1 : Src.ss ∈ l) (h2 : Src.tt ∈ l) :
+    l = [Src.ss, Src.tt] := by
+  have hlen : [Src.ss, Src.tt].length ≤ l.length := by
+    cases l with
+    | nil => cases h1
+    | cons a l =>
+      cases l with
+      | nil =>
+        simp only [List.mem_singleton] at h1 h2
+        rw [← h1] at h2; cases h2
+      | cons b l => simp
+  exact h.eq_of_length_le hlen
+
+theorem sublist_single_full {l : List Src} (h : l.Sublist [Src.tt]) (h2 : Src.tt ∈ l) : l = [Src.tt] := by
+  have hlen : [Src.tt].length ≤ l.length := by
+    cases l with
+    | nil => cases h2
+    | cons a l => simp
+  exact h.eq_of_length_le hlen
+
+/-- **The exact dirty list after a task event, for the CPU the thread runs on.**
+    In a coupled state (`Ovni.Emu.Coupled`, an invariant of every accepted
+    history: `C06.coupled_history`), for the task-state event of thread `ti`
+    accepted by the task hook and the CPU `c` whose `th_running` shows `ti`: after
+    the dirty phase the CPU's breakdown inputs appear on the dirty list EXACTLY as
+    `[ss, tt]` for `VTx` / `VTe` (`6Tx` / `6Te`) and as `[tt]` for `VTp` / `VTr`
+    — `tt` = the task-type channel, `ss` = the subsystem channel, and no `idle`.
+    Order: `update_task_ss_channel` before `update_task_channels`
+    (`task_event_dirty_positions`); presence: `chan_push` / `chan_pop` always dirty
+    the channel and the task type has `CHAN_ALLOW_DUP`, the CPU mux has the running
+    thread's input callback enabled (`MuxSync` from `Inv`), and `cb_input` dirties
+    the ALLOW_DUP output (`Inv.cpuOut_present`). -/
+theorem task_event_dirty_exact {tm : Ovni.Task.Model} {P : Ovni.Task.ProcInfo} {ε : Ovni.Task.Emu}
+    {e e' : Ovni.Emu.Emu} {b0 b : Ovni.Emu.Bay} {ti a k t bp : Nat} {tv : Ovni.Task.TaskEv} {p : List Nat}
+    (hc : e.shape.connect = .ok b0) (hs : Ovni.Emu.Shaped e) (hi : Ovni.Emu.Inv b0 e b)
+    (hk : e.specs[k]? = some (Ovni.Emu.specOf tm)) (hcp : Ovni.Emu.Coupled tm k e ε)
+    (h : Ovni.Emu.taskHook tm P ε (.task ti tv t bp) e ti (Ovni.Emu.specOf tm).char a p = .ok e')
+    {c iidle : Nat} {x : Ovni.Emu.Chan} (hcl : c < e.cpus.length) (hti : ti < e.threads.length)
+    (hrun : e.src (.run c) = some x) (hcur : x.cur = .int (ti : Int))
+    (h3 : iidle < (Ovni.Emu.specOf tm).nch) (hidle : iidle ∉ (Ovni.Emu.taskIdx tm).all) :
+    let iss := (Ovni.Emu.taskIdx tm).ss
+    let itt := (Ovni.Emu.taskIdx tm).typ
+    ∃ b1 bP bF em, Ovni.Emu.Bay.Writes (· < e.shape.L) b b1 ∧ Ovni.Emu.Mirrors e' b1 ∧
+      b1.dirtyPhase b1.chans.length 0 = .ok bP ∧ b1.propagate = .ok (bF, em) ∧ Ovni.Emu.Inv b0 e'.flushAll bF ∧
+      srcOrder (e.shape.cpuOut c k itt) (e.shape.cpuOut c k iss) (e.shape.cpuOut c k iidle) bP.dirty =
+        (if tv = .x ∨ tv = .e then [Src.ss, Src.tt] else [Src.tt]) := by
+  intro iss itt
+  have hgrp : iss < (Ovni.Emu.specOf tm).nch ∧ itt < (Ovni.Emu.specOf tm).nch ∧
+      itt ∈ (Ovni.Emu.taskIdx tm).sets ∧ iss ∉ (Ovni.Emu.taskIdx tm).sets ∧
+      itt ∈ (Ovni.Emu.taskIdx tm).all ∧ iss ∈ (Ovni.Emu.taskIdx tm).all := by
+    cases tm <;> decide
+  obtain ⟨g1, g2, g3, g4, g5, g6⟩ := hgrp
+  obtain ⟨b1, bP, bF, em, hw, hm, hph, hp, hinv, wfP, hnot, _, hsub, hpr⟩ :=
+    task_event_dirty_positions (c := c) (k := k) (itt := itt) (iidle := iidle) hc hs hi h hcl hk g1 g2 h3 g3 g4 hidle
+  have hsh : e'.shape = e.shape := ((Ovni.Emu.taskHook_simP h) hs).2.1
+  have hraw : ∀ s, Ovni.Emu.rawOf ti (Ovni.Emu.taskIdx tm).all s → s.isRaw := fun s hs => Ovni.Emu.rawOf_isRaw hs
+  obtain ⟨⟨ch1, d1, d2⟩, hssd⟩ := Ovni.Emu.taskHook_task_dirty hs hk hcp hti h
+  have hpt : e.shape.cpuOut c k itt ∈ bP.dirty :=
+    Ovni.Emu.Inv.cpuOut_present hc hi hsh hw hm hph hraw hcl hk g2 hti hrun hcur d1 d2
+  have hb := Ovni.Emu.Shape.connect_built hc
+  have hk' : e.shape.specs[k]? = some (Ovni.Emu.specOf tm) := hk
+  have hcl' : c < e.shape.nC := hcl
+  have hj : ∀ i, i < (Ovni.Emu.specOf tm).nch → Ovni.Emu.Job.cpu c k i ∈ e.shape.jobs :=
+    fun i hi => (e.shape.mem_jobs_cpu c k i).mpr ⟨hcl', _, hk', hi⟩
+  have hne : iss ≠ itt := fun hq => g4 (hq ▸ g3)
+  have hts : e.shape.cpuOut c k itt ≠ e.shape.cpuOut c k iss := by
+    rcases Nat.lt_or_gt_of_ne hne with h | h
+    · exact Nat.ne_of_gt (e.shape.cpuOut_lt (hj iss g1) (hj itt g2) h)
+    · exact Nat.ne_of_lt (e.shape.cpuOut_lt (hj itt g2) (hj iss g1) h)
+  have hti' : e.shape.cpuOut c k itt ≠ e.shape.cpuOut c k iidle := fun hq => hnot (hq ▸ hpt)
+  have hsi' : e.shape.cpuOut c k iss ≠ e.shape.cpuOut c k iidle := by
+    intro hq
+    have h1 : iss ≠ iidle := fun hq2 => hidle (hq2 ▸ g6)
+    rcases Nat.lt_or_gt_of_ne h1 with h | h
+    · exact absurd hq (Nat.ne_of_lt (e.shape.cpuOut_lt (hj iss g1) (hj iidle h3) h))
+    · exact absurd hq (Nat.ne_of_gt (e.shape.cpuOut_lt (hj iidle h3) (hj iss g1) h))
+  have hmem := srcOrder_contains (e.shape.cpuOut c k itt) (e.shape.cpuOut c k iss) (e.shape.cpuOut c k iidle)
+    hts hti' hsi' bP.dirty
+  refine ⟨b1, bP, bF, em, hw.mono (fun _ h => Ovni.Emu.Shape.okP_lt h), hm, hph, hp, hinv, ?_⟩
+  by_cases hxe : tv = .x ∨ tv = .e
+  · rw [if_pos hxe]
+    obtain ⟨ch2, d3, d4⟩ := hssd hxe
+    have hps : e.shape.cpuOut c k iss ∈ bP.dirty :=
+      Ovni.Emu.Inv.cpuOut_present hc hi hsh hw hm hph hraw hcl hk g1 hti hrun hcur d3 d4
+    exact sublist_pair_full hsub (hmem.2.mpr hps) (hmem.1.mpr hpt)
+  · rw [if_neg hxe]
+    have hne2 : ∀ th t2 bp2, Ovni.Task.Ev.task ti tv t bp ≠ .task th .x t2 bp2 ∧
+        Ovni.Task.Ev.task ti tv t bp ≠ .task th .e t2 bp2 := by
+      intro th t2 bp2
+      constructor
+      · intro hq; injection hq with _ hq _ _; exact hxe (Or.inl hq)
+      · intro hq; injection hq with _ hq _ _; exact hxe (Or.inr hq)
+    exact sublist_single_full (hpr hne2).2 (hmem.1.mpr hpt)
 
 -- OPEN (what is left of `dirty_level_ordered` for the whole emulator).
 -- Proved now: for every thread-state / affinity event the three CPU channels enter the
@@ -817,11 +918,17 @@ theorem task_event_dirty_positions {tm : Ovni.Task.Model} {P : Ovni.Task.ProcInf
 -- reference emulator.  (b) The positions after a task event
 -- (`task_event_dirty_positions`, `Bay.dirtyPhase_ordered`,
 -- `Shape.Built.cpu_order_two_phase`): no `idle`, `ss` before `tt`, i.e. the CPU's breakdown
--- sees a sublist of `[ss, tt]` (`[tt]` for pause / resume).
--- Still open: that the sublist is the full `[ss, tt]` for the CPU the thread runs on
--- (presence: needs that the selected input's callback is enabled, from `MuxSync`; shown by
--- computation in `exDirtyT` only); the ovni mark / flush events are covered by
--- `dirty_level_ordered_raw` as steps but are not instantiated here.
+-- sees a sublist of `[ss, tt]` (`[tt]` for pause / resume); and (c) the EXACT list for the
+-- CPU the thread runs on, in a coupled state (`task_event_dirty_exact`: `[ss, tt]` for
+-- `VTx` / `VTe`, `[tt]` for `VTp` / `VTr`; presence from `Bay.dirtyPhase_inputOnly`,
+-- `Inv.cpuOut_present`, `taskHook_task_dirty`; `Coupled` is an invariant of every accepted
+-- history, `C06.coupled_history`).
+-- Still open: the positions of the OTHER tracks on the list (thread tracks, the tracks of
+-- body id / task id / app id / rank): `Bay.dirtyPhase_ordered` orders them by trigger, the
+-- order of two outputs with the SAME trigger (thread track vs CPU track of one channel) is
+-- the order in which their `cb_input` callbacks were enabled — history dependent, not
+-- characterised; the breakdown does not read them.  The ovni mark / flush events are
+-- covered by `dirty_level_ordered_raw` as steps but are not instantiated here.
 -- Also not modelled: the breakdown muxes themselves (chained muxes on the CPU track
 -- outputs) are not part of `bayOf`; `step` is their per-CPU model.  Those parts stay
 -- exercised against the real `connect_cpu` by the harness and against `ovniemu -b` by the
@@ -1097,10 +1204,51 @@ example : ∃ (bI : Ovni.Emu.Bay) (e' : Ovni.Emu.Emu) (bP : Ovni.Emu.Bay), Ovni.
   cases h : Ovni.Emu.taskHook .nosv ⟨1, -1⟩ exTaskE (.task 0 .x 1 0) exEmu 0 86 84 [] with
   | error x => have := exVTx_accepted; rw [h] at this; cases this
   | ok e' =>
-    obtain ⟨_, bP, _, _, _, _, _, _, _, _, _, hsub, _⟩ :=
+    obtain ⟨_, bP, _, _, _, _, _, _, _, _, _, _, hsub, _⟩ :=
       task_event_dirty_positions (c := 0) (k := 1) (itt := 2) (iidle := 6) (m := Ovni.Emu.specNosv)
         exBay0_connect hs hi h (by decide) (by rfl) (by decide) (by decide) (by decide) (by decide) (by decide)
         idle_not_task_channel.1
     exact ⟨bI, e', bP, hi, rfl, hsub⟩
+
+/-! ### The exact list: non-vacuity
+
+`exEmuR` (thread 0 runs on CPU 0), coupled with the task layer state `exTaskE`
+(type 1 and task 1 created, every task channel null), event `VTx` of task 1. -/
+
+theorem exVTxR_accepted :
+    (match Ovni.Emu.taskHook .nosv ⟨1, -1⟩ exTaskE (.task 0 .x 1 0) exEmuR 0 86 84 [] with
+      | .ok _ => true | .error _ => false) = true := by
+  decide
+
+/-- All hypotheses of `task_event_dirty_exact` hold: CPU 0's breakdown inputs are
+    on the dirty list exactly as `[ss, tt]`. -/
+example : ∃ (bR : Ovni.Emu.Bay) (e' : Ovni.Emu.Emu) (bP : Ovni.Emu.Bay), Ovni.Emu.Inv exBay0 exEmuR bR ∧
+    Ovni.Emu.Coupled .nosv 1 exEmuR exTaskE ∧
+    Ovni.Emu.taskHook .nosv ⟨1, -1⟩ exTaskE (.task 0 .x 1 0) exEmuR 0 86 84 [] = .ok e' ∧
+    srcOrder (exEmuR.shape.cpuOut 0 1 2) (exEmuR.shape.cpuOut 0 1 4) (exEmuR.shape.cpuOut 0 1 6) bP.dirty =
+      [Src.ss, Src.tt] := by
+  obtain ⟨hs, _, bI, _, _, _, hi⟩ := Ovni.Emu.Inv.init _ _ _ _ _ exBay0_connect (by decide) (by decide)
+    (by rw [List.append_nil]; exact Ovni.Emu.initSingle_allSpecs _)
+  have hcp0 : Ovni.Emu.Coupled .nosv 1 exEmu Ovni.Task.Emu.init :=
+    Ovni.Emu.coupled_init .nosv _ _ _ _ _ (by rfl)
+  cases h : Ovni.Emu.preThread exEmu 0 120 [0, 0, 0, 0] with
+  | error x => have := exOHx_accepted; rw [h] at this; cases this
+  | ok e1 =>
+    have hsim := Ovni.Emu.SimP.preThread h
+    obtain ⟨hs1, hsh1, _, bR, _, _, _, _, _, hiR⟩ := Ovni.Emu.Inv.step exBay0_connect hs hi hsim
+    have hR : exEmuR = e1.flushAll := by unfold exEmuR; rw [h]
+    have hcpR : Ovni.Emu.Coupled .nosv 1 e1.flushAll exTaskE :=
+      hcp0.keep (congrArg Ovni.Emu.Shape.nT (hsim hs).2.1) (Ovni.Emu.preThread_maxStack h)
+        (Ovni.Emu.RawKeep.of_sys hsim hs hi.mirrors (fun _ _ hx => hx)) (by rfl) (by rfl)
+    rw [← hR] at hs1 hsh1 hiR hcpR
+    have hcR : exEmuR.shape.connect = .ok exBay0 := by rw [hsh1]; exact exBay0_connect
+    cases h2 : Ovni.Emu.taskHook .nosv ⟨1, -1⟩ exTaskE (.task 0 .x 1 0) exEmuR 0 86 84 [] with
+    | error x => have := exVTxR_accepted; rw [h2] at this; cases this
+    | ok e' =>
+      obtain ⟨_, bP, _, _, _, _, _, _, _, hex⟩ :=
+        task_event_dirty_exact (tm := .nosv) (c := 0) (k := 1) (iidle := 6) (x := (exEmuR.src (.run 0)).getD {})
+          hcR hs1 hiR (by rfl) hcpR h2 (by decide) (by decide) (by rfl) (by decide) (by decide)
+          idle_not_task_channel.1
+      exact ⟨bR, e', bP, hiR, hcpR, rfl, hex⟩
 
 end Ovni.Props.C20
